@@ -242,8 +242,11 @@ func Deep(t *rapid.T) []byte {
 
 // Any draws an input from one of the byte-level sources.
 func Any(t *rapid.T) ([]byte, string) {
-	if rapid.IntRange(0, 39).Draw(t, "deep") == 0 {
+	switch rapid.IntRange(0, 39).Draw(t, "special") {
+	case 0:
 		return Deep(t), "deep-nesting"
+	case 1:
+		return LongLexemes(t), "long-lexemes"
 	}
 	switch rapid.IntRange(0, 5).Draw(t, "source") {
 	case 0:
@@ -284,6 +287,63 @@ func SemanticErrorProgram(t *rapid.T) []byte {
 		default:
 			b = append(b, ("$x" + string(rune('0'+i)) + " = " + rapid.SampledFrom(subjects).Draw(t, "subject") + "; ")...)
 		}
+	}
+	return b
+}
+
+// longLens are lexeme lengths around the sizes at which buffers, abbreviations
+// and block allocations usually change behaviour.
+var longLens = []int{63, 64, 65, 127, 128, 129, 255, 256, 257, 258, 259, 260, 300, 511, 512, 513, 1000, 1023, 1024, 1025, 2047, 2048, 2049, 4095, 4096, 4097, 8191, 8192, 8193, 10000}
+
+// LongLexemes draws a valid program in which one to three lexemes are very
+// long: string literals, comments, inline HTML, heredoc and nowdoc bodies,
+// identifiers, numbers, whitespace runs and the data after __halt_compiler().
+func LongLexemes(t *rapid.T) []byte {
+	fill := func(n int, alphabet string) string {
+		b := make([]byte, n)
+		k := rapid.IntRange(0, len(alphabet)-1).Draw(t, "phase")
+		for i := range b {
+			b[i] = alphabet[(i+k)%len(alphabet)]
+		}
+		return string(b)
+	}
+	var b []byte
+	if rapid.IntRange(0, 3).Draw(t, "leadhtml") == 0 {
+		b = append(b, fill(rapid.SampledFrom(longLens).Draw(t, "len"), "<p>html text</p>\n")...)
+	}
+	b = append(b, "<?php\n"...)
+	n := rapid.IntRange(1, 3).Draw(t, "n")
+	for i := 0; i < n; i++ {
+		l := rapid.SampledFrom(longLens).Draw(t, "len")
+		switch rapid.IntRange(0, 11).Draw(t, "kind") {
+		case 0:
+			b = append(b, ("$s = '" + fill(l, "abc def ") + "';\n")...)
+		case 1:
+			b = append(b, ("$s = \"" + fill(l, "xyz- ") + " $v tail\";\n")...)
+		case 2:
+			b = append(b, ("/*" + fill(l, "comment ") + "*/ echo 1;\n")...)
+		case 3:
+			b = append(b, ("// " + fill(l, "line comment ") + "\necho 2;\n")...)
+		case 4:
+			b = append(b, ("?>" + fill(l, "<b>inline</b> ") + "<?php\n")...)
+		case 5:
+			b = append(b, ("$h = <<<EOT\n" + fill(l, "heredoc text\n") + "\nEOT;\n")...)
+		case 6:
+			b = append(b, ("$h = <<<'EOT'\n" + fill(l, "nowdoc $x\n") + "\nEOT;\n")...)
+		case 7:
+			b = append(b, ("function f" + fill(l, "abcdefghij_") + "() {}\n")...)
+		case 8:
+			b = append(b, ("$n = 1" + fill(l, "0123456789") + ";\n")...)
+		case 9:
+			b = append(b, ("echo" + fill(l, " \t\n") + "3;\n")...)
+		case 10:
+			b = append(b, ("/** " + fill(l, "doc * ") + "*/ class C" + string(rune('a'+i)) + " {}\n")...)
+		default:
+			b = append(b, ("echo `" + fill(l, "ls -l ") + "`;\n")...)
+		}
+	}
+	if rapid.IntRange(0, 1).Draw(t, "halt") == 0 {
+		b = append(b, ("__halt_compiler();" + fill(rapid.SampledFrom(longLens).Draw(t, "len"), "binary data \x00\x01\xff "))...)
 	}
 	return b
 }
